@@ -12,6 +12,15 @@ BASE_NOTE = (
 
 # property -> (category, text, technique, design_ref, extra note)
 CLAIMS = {
+    "C27": (
+        "proof",
+        "CallNode.macro_args is verified against the binding specification (positional in order, then keyword by name overriding, then parameter default; surplus positional arguments in order; surplus keyword arguments by name, last wins) "
+        "for every arity 0..3 parameters x 0..4 positional x 0..3 keyword arguments, with arbitrary (symbolic) keyword names and values, i.e. matching, non-matching and duplicate names are all covered per arity. "
+        "A bounded contract check renders macros/calls and nested with blocks through the real tags.",
+        "contract-based deductive verification (per-arity contracts over map views, z3 strings/arrays) + bounded contract check",
+        "DESIGN.md section 4 C27",
+        "",
+    ),
     "C14": (
         "proof",
         "Contracts on the real scope machinery: ReadOnlyChainMap.__getitem__ returns the first map's binding (KeyError iff unbound everywhere; chain lengths 1..5 with arbitrary maps), push/pop; "
